@@ -254,9 +254,9 @@ pub fn run(ctx: &mut Ctx) {
 	ctx.rule = "mapping sets with 2..4 namespaces built from index draws (nested classes with and without outer class, packages, unicode and placeholder-like names, missing cells, multi-line comments, parameters without source name) x two insertion orders x one line order; plus (duplicate_sections_refused) harness-written texts in which one class / member / parameter section is repeated under its parent (whole block, line alone, or with other target names; adjacent or at the end of the parent) and must be refused, because any Ok result merges or loses an entry; non-trivial = >=2 classes, >=1 nested class, >=1 comment and two different insertion orders; distinct by hash of the serialised case".into();
 	ctx.assume("names are valid for their duke newtype, valid UTF-8 and contain no TAB/LF/CR (Tiny v2 without escaped-names cannot express them)");
 	ctx.assume("top-level Mappings.javadoc is None (Tiny v2 has no such line)");
-	let cases = ctx.tier.pick(24000, 2000000);
+	let cases = ctx.tier.pick(72000, 2000000);
 	ctx.run_sub("roundtrip", cases, || strategy(false), dispatch);
-	let cases = ctx.tier.pick(12000, 1000000);
+	let cases = ctx.tier.pick(36000, 1000000);
 	ctx.run_sub("roundtrip_escapes", cases, || strategy(true), |case: &Case, obs: &mut Obs| {
 		let r = dispatch(case, obs);
 		let hostile = case.m.all_docs().iter().any(|d| d.contains('\\') || d.contains('\t') || d.contains('\r'));
@@ -265,7 +265,7 @@ pub fn run(ctx: &mut Ctx) {
 	});
 	ctx.run_sub(
 		"duplicate_sections_refused",
-		ctx.tier.pick(12000, 600000),
+		ctx.tier.pick(36000, 600000),
 		|| (mapset(cfg(false)), order_seed(), any::<u16>(), 0u8..3, any::<bool>()).prop_map(|(m, order, pick, variant, at_end)| DupCase { m, order, pick, variant, at_end }),
 		duplicates,
 	);
